@@ -27,6 +27,10 @@ pub enum Field {
     VmessAuthId(i64),
     /// VMess response: (V xor, derive keys from a different request key/IV)
     VmessResponse(u8, bool),
+    /// VMess request whose bytes arrive in two reads while the clock moves: (cut position, clock at the first read relative
+    /// to the auth-id timestamp, clock at the second read relative to it). The token is honoured - the flow is opened - at the
+    /// second read, so that is the moment at which it must still be within 120 s.
+    VmessAuthIdSplit(u16, i64, i64),
 }
 
 #[derive(Clone, Debug, Serialize, Deserialize)]
@@ -59,6 +63,7 @@ pub fn field_strategy() -> BoxedStrategy<FieldCase> {
         2 => (delta_strategy(30), type_strategy(0)).prop_map(|(d, t)| Field::S22UdpToServer(d, t)),
         2 => (delta_strategy(30), type_strategy(1)).prop_map(|(d, t)| Field::S22UdpToClient(d, t)),
         3 => delta_strategy(120).prop_map(Field::VmessAuthId),
+        2 => (prop_oneof![2 => Just(0u16), 2 => any::<u16>(), 1 => Just(u16::MAX)], prop_oneof![3 => -120i64..=120, 1 => -400i64..=400], prop_oneof![2 => -120i64..=120, 3 => 121i64..4000, 1 => -4000i64..-120]).prop_map(|(c, a, b)| Field::VmessAuthIdSplit(c, a, b)),
         2 => (prop_oneof![3 => Just(0u8), 2 => 1u8..=255], proptest::bool::weighted(0.3)).prop_map(|(v, k)| Field::VmessResponse(v, k)),
     ];
     (0u8..8, 0u8..3, any::<u64>(), f).prop_map(|(cipher, users, seed, field)| FieldCase { cipher, users, seed, field }).boxed()
@@ -234,6 +239,45 @@ impl SubCheck for Fields {
                     out.fail(
                         format!("handshake-fields/vmess/auth-id/{}", if got { "accepted-but-must-be-rejected" } else { "rejected-but-acceptable" }),
                         format!("auth-id timestamp {} (now {}, distance {}): server {} (err {:?})", ts, T0, ts.abs_diff(T0 as i64), if got { "accepted" } else { "rejected" }, fed.err),
+                    );
+                }
+            }
+            Field::VmessAuthIdSplit(cutp, d1, d2) => {
+                let sec = if c.cipher % 2 == 0 { 3 } else { 4 };
+                let cred = gen::make_cred(Proto::Vmess(sec), "", c.seed, 1 + c.users as usize, c.users as usize);
+                let o = ReqOpts::new(T0);
+                let f = refside::ref_client_request(&cred, &addr, &payload, &o, &mut d).unwrap();
+                let sctx = ServerCtx::new(&cred).unwrap();
+                let mut codec = sctx.codec().unwrap();
+                // cut 0 = right behind the 16-byte auth id; otherwise anywhere inside the request
+                let cut = if *cutp == 0 { 16 } else { 1 + rt::idx(*cutp, f.wire.len() - 1) };
+                let segs = crate::drive::cut(&f.wire, &[cut]);
+                let clocks = [(T0 as i64 + d1) as u64, (T0 as i64 + d2) as u64];
+                let fed = crate::drive::feed_with(&mut codec, &segs, |i| real::set_clock(Some(clocks[i.min(1)])));
+                real::set_clock(Some(T0));
+                let items: Vec<real::Item> = fed.items.iter().map(|i| real::Item::from_inbound(i).0).collect();
+                let got = matches!(flow_of(&items), Flow::Tcp { .. });
+                let fresh1 = d1.abs() <= 120;
+                let fresh2 = d2.abs() <= 120;
+                // The auth id authenticates the sealed request header (it is that AEAD's associated data): the token is
+                // honoured when the server accepts the header that carries it, which it can do no earlier than the read
+                // that completes the header. (A request whose header was complete and fresh at the first read may lawfully
+                // be followed by its body later.)
+                let header_complete_at_first = cut >= f.header_end;
+                let age_when_honoured = if header_complete_at_first { *d1 } else { *d2 };
+                out.label(format!("vmess-auth-id split first:{} second:{} cut:{}", if fresh1 { "fresh" } else { "stale" }, if fresh2 { "fresh" } else { "stale" }, if cut < 16 { "<16" } else if cut == 16 { "16" } else if cut < f.header_end { "in-header" } else { "behind-header" }));
+                out.nontrivial(format!("vmessaidsplit|{}|{}|{}|{}|{}|{}", sec, fresh1, fresh2, cut.min(17), header_complete_at_first, c.users));
+                if let Some(p) = fed.panic {
+                    out.fail("handshake-fields/vmess/auth-id-split/panic", p);
+                } else if got && age_when_honoured.abs() > 120 {
+                    out.fail(
+                        "handshake-fields/vmess/auth-id-split/accepted-but-must-be-rejected",
+                        format!("a request whose sealed header ({} bytes) was completed by the read at auth-id age {} s (first {} bytes arrived at age {} s) was accepted: the token is honoured outside its 120 s", f.header_end, age_when_honoured, cut, d1),
+                    );
+                } else if !got && fresh1 && fresh2 {
+                    out.fail(
+                        "handshake-fields/vmess/auth-id-split/rejected-but-acceptable",
+                        format!("a request cut at {} whose auth-id is {} s / {} s old at its two reads was rejected (err {:?})", cut, d1, d2, fed.err),
                     );
                 }
             }
